@@ -13,7 +13,7 @@ use crate::exprm::{self, bin, num, un, BinOp, Radix, UnOp, Val, BINOPS, E, FUNCS
 use crate::report::{cov, machinery_fail, Report, Tier};
 use crate::sut::Outcome;
 
-const PROLOGUE: &str = ".equ k_five = 5\n.equ K_Neg = -3\n.dseg\nlbl_a: .byte 2\nLbl_B: .byte 1\n.cseg\n";
+const PROLOGUE: &str = ".equ k_five = 5\n.equ k_sum = 1 + 2\n.equ k_chain = k_sum * k_five - 1\n.equ K_Neg = -3\n.dseg\nlbl_a: .byte 2\nLbl_B: .byte 1\n.cseg\n";
 const EPILOGUE: &str = ".equ k_late = 9\n";
 
 struct XCase {
@@ -175,6 +175,9 @@ fn gen(tier: Tier) -> Vec<XCase> {
         E::Sym("k_five".into(), 5),
         E::Sym("K_FIVE".into(), 5),
         E::Sym("k_neg".into(), -3),
+        // constants defined by expressions stand for their value, not their text
+        E::Sym("k_sum".into(), 3),
+        E::Sym("K_Chain".into(), 14),
         E::Sym("k_late".into(), 9),
         E::Sym("lbl_a".into(), 0x60),
         E::Sym("LBL_B".into(), 0x62),
